@@ -307,6 +307,11 @@ class _SubStep(Contract):
 @register
 class ChildrenStep(_SubStep):
     qualname = "_AddOrRemoveNotifier._add_or_remove_children_notifiers"
+    extra_properties = ("C08", "C12")
+    # C08 / C12: one sub-walk per OCCURRENCE of a next object and per child graph (the reference counts of the notifiers
+    # mirror occurrences).  The multiplicity is not stated as a clause here (it needs the sequence structure of two nested
+    # loops); it is covered by the independent reachability oracle when this unit cannot be decided.
+    undecided_probe = dict(harness="observe", family="reachability", trials=150)
 
 
 @register
